@@ -6,11 +6,14 @@
 package pbm
 
 import (
+	"bufio"
 	"bytes"
 	"encoding/binary"
 	"errors"
 	"fmt"
 	"io"
+	"strings"
+	"testing/iotest"
 
 	proto "github.com/golang/protobuf/proto"
 	"google.golang.org/protobuf/types/known/emptypb"
@@ -123,6 +126,59 @@ func (f Frame) Fresh() proto.Message {
 	}
 	return &emptypb.Empty{}
 }
+
+// Dirty builds a message of the same kind that already holds other content (a destination that is
+// reused for several frames): decoding must replace that content, not merge with it.
+func (f Frame) Dirty() proto.Message {
+	stale := []byte("stale content left over from an earlier frame")
+	switch f.Kind {
+	case "raw":
+		if f.Versioned {
+			return &RawV{B: stale, Ver: string(f.Ver)}
+		}
+		return &Raw{B: stale}
+	case "bytes":
+		if f.Versioned {
+			return &BytesV{BytesValue: &wrapperspb.BytesValue{Value: stale}, Ver: string(f.Ver)}
+		}
+		return &wrapperspb.BytesValue{Value: stale}
+	case "string":
+		if f.Versioned {
+			return &StringV{StringValue: &wrapperspb.StringValue{Value: string(stale)}, Ver: string(f.Ver)}
+		}
+		return &wrapperspb.StringValue{Value: string(stale)}
+	case "int64":
+		return &wrapperspb.Int64Value{Value: 7777}
+	}
+	return &emptypb.Empty{}
+}
+
+// WrapReader puts a standard-library reader type around (or in place of) a reader over data:
+// implementations sometimes special-case these types.
+func WrapReader(kind string, data []byte) io.Reader {
+	switch kind {
+	case "bufio":
+		return bufio.NewReader(bytes.NewReader(data))
+	case "bufio16":
+		return bufio.NewReaderSize(&ChunkReader{Data: data, Mode: "sizes", Sizes: []int{5, 300}, ErrAt: -1}, 16)
+	case "bytes.Reader":
+		return bytes.NewReader(data)
+	case "bytes.Buffer":
+		return bytes.NewBuffer(append([]byte(nil), data...))
+	case "strings.Reader":
+		return strings.NewReader(string(data))
+	case "LimitReader":
+		return io.LimitReader(bytes.NewReader(data), int64(len(data)))
+	case "iotest.DataErrReader":
+		return iotest.DataErrReader(bytes.NewReader(data))
+	case "iotest.HalfReader":
+		return iotest.HalfReader(bytes.NewReader(data))
+	}
+	return bytes.NewReader(data)
+}
+
+// StdReaders lists the kinds WrapReader knows.
+var StdReaders = []string{"bufio", "bufio16", "bytes.Reader", "bytes.Buffer", "strings.Reader", "LimitReader", "iotest.DataErrReader", "iotest.HalfReader"}
 
 // SameContent compares a decoded message with the frame's content.
 func (f Frame) SameContent(m proto.Message) (bool, string) {
